@@ -1457,6 +1457,39 @@ fn judge_int(acc: &mut Acc, case: &Case, obs: &Obs, lo: i128, hi: i128) {
 
 const POSITIONS: [&str; 6] = ["array", "enum", "case", "template", "attr", "assert_eval"];
 
+/// every further attribute / pipeline-property argument the typer evaluates to an unsigned integer of fixed width
+/// (`parse_expr_as_u32` for globals and cbuffers, the numthreads y and z arguments, `extract_uint32`, `[unroll(n)]`):
+/// (name, declaration with `@E@` for the expression, largest value the position can represent)
+const UINT_POSITIONS: [(&str, &str, i128); 12] = [
+    ("vk-binding", "[[vk::binding(@E@)]] Texture2D<float4> g_t;\n", u32::MAX as i128),
+    ("vk-binding-2a", "[[vk::binding(@E@, 3)]] Texture2D<float4> g_t;\n", u32::MAX as i128),
+    ("vk-binding-2b", "[[vk::binding(3, @E@)]] Texture2D<float4> g_t;\n", u32::MAX as i128),
+    ("bind-group", "[[rssl::bind_group(@E@)]] Texture2D<float4> g_t;\n", u32::MAX as i128),
+    ("cb-vk-binding", "[[vk::binding(@E@)]] cbuffer g_cb { float4 cx; }\n", u32::MAX as i128),
+    ("cb-vk-binding-2a", "[[vk::binding(@E@, 3)]] cbuffer g_cb { float4 cx; }\n", u32::MAX as i128),
+    ("cb-vk-binding-2b", "[[vk::binding(3, @E@)]] cbuffer g_cb { float4 cx; }\n", u32::MAX as i128),
+    ("cb-bind-group", "[[rssl::bind_group(@E@)]] cbuffer g_cb { float4 cx; }\n", u32::MAX as i128),
+    ("numthreads-y", "[numthreads(1, @E@, 1)] void cs() {}\nPipeline P { ComputeShader = cs; }\n", u32::MAX as i128),
+    ("numthreads-z", "[numthreads(1, 1, @E@)] void cs() {}\nPipeline P { ComputeShader = cs; }\n", u32::MAX as i128),
+    ("default-bind-group", "[numthreads(1, 1, 1)] void cs() {}\nPipeline P { ComputeShader = cs; DefaultBindGroup = @E@; }\n", u32::MAX as i128),
+    ("unroll", "void fu() { [unroll(@E@)] for (int i = 0; i < 1; ++i) {} }\n", u64::MAX as i128),
+];
+
+fn uint_position(pos: &str) -> Option<&'static (&'static str, &'static str, i128)> {
+    UINT_POSITIONS.iter().find(|p| p.0 == pos)
+}
+
+fn find_unroll(b: &ir::ScopeBlock) -> Option<u64> {
+    for st in &b.0 {
+        for a in &st.attributes {
+            if let ir::StatementAttribute::Unroll(Some(n)) = a {
+                return Some(*n);
+            }
+        }
+    }
+    None
+}
+
 fn find_case_label(b: &ir::ScopeBlock) -> Option<ir::Constant> {
     for st in &b.0 {
         match &st.kind {
@@ -1510,7 +1543,10 @@ fn obs_position(pos: &str, expr: &str, tyname: Option<&str>, rlit: &str) -> (Obs
             Some(t) => format!("void fa() {{ assert_eval<{}>({}, {}); }}\n", t, expr, rlit),
             None => format!("void fa() {{ assert_eval({}, {}); }}\n", expr, rlit),
         },
-        _ => unreachable!(),
+        p => match uint_position(p) {
+            Some(u) => u.1.replacen("@E@", expr, 1),
+            None => unreachable!(),
+        },
     };
     let src = format!("{}{}", PRELUDE, body);
     let m = match tc(&src) {
@@ -1523,6 +1559,8 @@ fn obs_position(pos: &str, expr: &str, tyname: Option<&str>, rlit: &str) -> (Obs
                     ("array", TyperError::ArrayDimensionsMustBeConstantExpression(..)) => Obs::NotConst,
                     ("array", TyperError::ArrayDimensionsMustBeNonZero(..)) => Obs::Int(0),
                     ("attr", TyperError::PipelinePropertyRequiresIntegerArgument(..)) => Obs::NotConst,
+                    ("numthreads-y" | "numthreads-z" | "default-bind-group", TyperError::PipelinePropertyRequiresIntegerArgument(..)) => Obs::NotConst,
+                    ("unroll", TyperError::AttributeUnrollArgumentMustBeIntegerConstant(..)) => Obs::NotConst,
                     ("assert_eval", TyperError::AssertEvalFailed(_, _reference, generated)) => Obs::Value(generated.clone()),
                     _ => Obs::Rejected(err_head(&e)),
                 },
@@ -1574,6 +1612,50 @@ fn obs_position(pos: &str, expr: &str, tyname: Option<&str>, rlit: &str) -> (Obs
             None => missing,
         },
         "assert_eval" => (Obs::Agree, None),
+        "vk-binding" | "vk-binding-2a" | "vk-binding-2b" | "bind-group" => {
+            for g in m.global_registry.iter() {
+                if !g.is_intrinsic && g.name.node == "g_t" {
+                    let v = if pos == "vk-binding" || pos == "vk-binding-2a" { g.lang_slot.index } else { g.lang_slot.set };
+                    return match v {
+                        Some(n) => (Obs::Int(n as i128), None),
+                        None => missing,
+                    };
+                }
+            }
+            missing
+        }
+        "cb-vk-binding" | "cb-vk-binding-2a" | "cb-vk-binding-2b" | "cb-bind-group" => {
+            for cb in m.cbuffer_registry.iter() {
+                if cb.name.node == "g_cb" {
+                    let v = if pos == "cb-vk-binding" || pos == "cb-vk-binding-2a" { cb.lang_binding.index } else { cb.lang_binding.set };
+                    return match v {
+                        Some(n) => (Obs::Int(n as i128), None),
+                        None => missing,
+                    };
+                }
+            }
+            missing
+        }
+        "numthreads-y" | "numthreads-z" => match m.pipelines.first().and_then(|p| p.stages.first()).and_then(|s| s.thread_group_size) {
+            Some((_, y, z)) => (Obs::Int(if pos == "numthreads-y" { y } else { z } as i128), None),
+            None => missing,
+        },
+        "default-bind-group" => match m.pipelines.first() {
+            Some(p) => (Obs::Int(p.default_bind_group_index as i128), None),
+            None => missing,
+        },
+        "unroll" => {
+            for id in m.function_registry.iter() {
+                if m.function_registry.get_function_name(id) == "fu" {
+                    if let Some(imp) = m.function_registry.get_function_implementation(id) {
+                        if let Some(n) = find_unroll(&imp.scope_block) {
+                            return (Obs::Int(n as i128), None);
+                        }
+                    }
+                }
+            }
+            missing
+        }
         _ => unreachable!(),
     }
 }
@@ -1938,6 +2020,16 @@ fn process_position_src(base: &Base, node: &Node, pos: &str, flat: Option<&str>,
             judge(acc, &case, &v[0].0, v[0].1.as_ref());
         }
         "emit-enum" | "emit-case" | "emit-global" | "emit-array" => process_emitted(&case, pos, acc),
+        p if uint_position(p).is_some() => {
+            let hi = uint_position(p).unwrap().2;
+            let (o, _) = obs_position(pos, &src, None, "");
+            if info.ty.map(|t| t.is_enum()).unwrap_or(false) && matches!(o, Obs::NotConst) {
+                // Constant::to_uint64 has no arm for enum constants: these positions do not admit enum-typed arguments at all
+                acc.count("uint_position_enum_typed_argument_not_admitted");
+                return;
+            }
+            judge_int(acc, &case, &o, 0, hi);
+        }
         _ => acc.count("unknown_position"),
     }
 }
@@ -2165,7 +2257,7 @@ fn thin<T: Copy>(v: &[T], max: usize) -> Vec<T> {
 
 pub fn run(ctx: &Ctx) -> i32 {
     let mut rep = Report::new("exploration");
-    rep.rule = "every generated expression is type-checked by the real rssl typer inside `static const T c = E;` (and, for the position subset, as array size / enum value / case label / template argument / numthreads argument / assert_eval operand); non-trivial = rssl evaluated it to a constant that was compared with the reference evaluator, or reported a division by zero as not constant; distinct = different (root operator, operand types, resulting constant)".into();
+    rep.rule = "every generated expression is type-checked by the real rssl typer inside `static const T c = E;` (and, for the position subset, as array size / enum value / case label / template argument / numthreads argument / assert_eval operand; and, for the uint-position subset, as argument of [[vk::binding(e)]], [[vk::binding(e, 3)]], [[vk::binding(3, e)]], [[rssl::bind_group(e)]] on a texture and on a cbuffer, numthreads y and z, DefaultBindGroup, [unroll(e)]); non-trivial = rssl evaluated it to a constant that was compared with the reference evaluator, or reported a division by zero as not constant; distinct = different (root operator, operand types, resulting constant)".into();
 
     let mut base = Base::new();
     let nleaf = base.leaves.len() as u32;
@@ -2324,6 +2416,80 @@ pub fn run(ctx: &Ctx) -> i32 {
         rep.absorb("positions", r);
     }
 
+    // A: attribute / pipeline-property arguments evaluated to a fixed-width unsigned integer. Arguments: the position
+    // candidates above, every distinct depth-≤1 value outside 0..2^31 (unthinned), and one expression per distinct new
+    // value of `w op k` / `k op w` (w such a value, k a small leaf): the values around and beyond the 32- and 64-bit boundaries
+    {
+        let mut wide: Vec<u32> = Vec::new();
+        let mut wseen: HashMap<(u8, u128), u32> = HashMap::new();
+        for id in &cand {
+            if let Some(v) = definite(&base.info[*id as usize]) {
+                if let Some(n) = v.int() {
+                    if (n < 0 || n >= (1i128 << 31)) && !wseen.contains_key(&v.key()) {
+                        wseen.insert(v.key(), *id);
+                        wide.push(*id);
+                    }
+                }
+            }
+        }
+        let small: Vec<u32> = ["0", "1", "2", "31", "32", "(-1)", "1u", "I1"].iter().filter_map(|t| base.leaves.iter().position(|l| l.0 == *t).map(|i| i as u32)).collect();
+        // quick: every value within 2 of a power-of-two boundary is kept, the others are thinned evenly
+        let near = |id: &u32| -> bool {
+            let n = definite(&base.info[*id as usize]).and_then(|v| v.int()).unwrap_or(0);
+            [0i128, 1 << 31, 1 << 32, 1 << 63, 1 << 64, -(1 << 31)].iter().any(|b| (n - b).abs() <= 2)
+        };
+        let mut wide2: Vec<u32> = wide.iter().filter(|id| near(id)).cloned().collect();
+        let far: Vec<u32> = wide.iter().filter(|id| !near(id)).cloned().collect();
+        wide2.extend(thin(&far, ctx.pick(64, 0)));
+        let ops = [Bop::Or, Bop::Add, Bop::Sub, Bop::Xor, Bop::And, Bop::Shl, Bop::Shr, Bop::Mul, Bop::Div, Bop::Mod];
+        let mut args: Vec<u32> = chosen.clone();
+        for w in &wide {
+            if !args.contains(w) {
+                args.push(*w);
+            }
+        }
+        let mut deep = 0i64;
+        for op in ops {
+            for w in &wide2 {
+                for k in &small {
+                    for n in [Node::Bin(op, *w, *k), Node::Bin(op, *k, *w)] {
+                        let i = base.eval(&n);
+                        let ok = i.ty.map(|t| t.is_intlike()).unwrap_or(false) && i.sup && !matches!(i.out[0], Out::Free);
+                        if !ok {
+                            continue;
+                        }
+                        if let Some(v) = definite(&i) {
+                            if wseen.contains_key(&v.key()) || v.int().map(|n| n >= 0 && n < (1i128 << 31)).unwrap_or(true) {
+                                continue;
+                            }
+                            wseen.insert(v.key(), 0);
+                            args.push(base.push(n));
+                            deep += 1;
+                        }
+                    }
+                }
+            }
+        }
+        rep.cov("uint_position_arguments", Json::Int(args.len() as i64));
+        rep.cov("uint_position_wide_values_depth1", Json::Int(wide.len() as i64));
+        rep.cov("uint_position_wide_values_depth2", Json::Int(deep));
+        let np = UINT_POSITIONS.len() as u64;
+        let total = args.len() as u64 * np;
+        let off = offset + 20_000_000;
+        let b = &base;
+        let a = &args;
+        let r = run_par(ctx, total, 64, |idx, acc| {
+            acc.cur_index = off + idx;
+            let id = a[(idx / np) as usize];
+            let pos = UINT_POSITIONS[(idx % np) as usize].0;
+            process_position(b, &b.nodes[id as usize], pos, acc);
+            if idx % 4001 == 0 {
+                acc.sample(obj(vec![("space", "uint_positions".into()), ("position", pos.into()), ("expression", b.src(&b.nodes[id as usize]).into())]));
+            }
+        });
+        rep.absorb("uint_positions", r);
+    }
+
     // E: emitted constants — the same candidates printed by both exporters
     {
         let off = offset + chosen.len() as u64 * POSITIONS.len() as u64 + nleaf as u64;
@@ -2396,6 +2562,7 @@ pub fn run(ctx: &Ctx) -> i32 {
         "`false && (1/0)`-style operands: C would not evaluate the right operand, rssl does: both 'not constant' and the short-circuit value are accepted".into(),
         "depth 2 uses one representative expression per distinct depth-≤1 value (evaluation is compositional: evaluate_constexpr only looks at the values of the operands); depth 3 uses a 10-operator subset, evenly thinned representatives of the integer values first reached at depth 2 and 19 boundary leaves".into(),
         "INT_MIN is spelled as the global `static const int IMIN = -2147483648` / enum value; 64-bit suffixed literals (l, ul) are outside the space (no 64-bit scalar type exists in the typer)".into(),
+        "fixed-width unsigned positions (binding / bind group / numthreads / DefaultBindGroup: 32 bits, unroll: 64 bits): the position must use exactly the reference value, or reject the program; a value the position cannot represent (negative, > 2^32-1 resp. > 2^64-1) may only be rejected, never replaced by a truncated value; enum-typed arguments are not admitted by rssl there and are not judged. The pipeline properties WriteMask and MaxAnisotropy (same extract_uint32 routine as DefaultBindGroup) and the vector/matrix dimension template arguments (range 1..4) are not enumerated".into(),
     ];
     finish(ctx, rep)
 }
